@@ -107,7 +107,8 @@ def cargo_build(packages, flavour="native", extra_env=None, timeout=3600):
 def build_cli(timeout=3600):
     """The real isograph_cli from /repo's working tree with the guard on."""
     tdir = TARGET + "-cli"
-    env = {"RUSTFLAGS": f"--cfg {GUARD}", "CARGO_TARGET_DIR": tdir}
+    # no debug info: the 180 MB debug binary costs ~0.4 s per spawn; panic locations do not need it
+    env = {"RUSTFLAGS": f"--cfg {GUARD}", "CARGO_TARGET_DIR": tdir, "CARGO_PROFILE_DEV_DEBUG": "0"}
     cmd = ["cargo", "build", "--offline", "-p", "isograph_cli",
            "--manifest-path", os.path.join(REPO, "Cargo.toml")]
     r = _run(cmd, cwd=REPO, env=env, timeout=timeout)
